@@ -20,6 +20,9 @@ pub mod rank_sel;
 pub mod traits;
 pub mod utils;
 
+#[cfg(sux_verif)]
+pub mod verif;
+
 #[cfg(feature = "fuzz")]
 pub mod fuzz;
 
